@@ -219,6 +219,30 @@ def bounded(check, tier, seed):
     s.done()
 
 
+def interrupted(check, tier, seed):
+    """an observation aborted half-way (asynchronous exception) must leave no partly computed view behind"""
+    from bounded.common import interrupted_then
+    rng = random.Random(seed + 31)
+    vals = [_rand_fs(rng) for _ in range(12 if tier == "thorough" else 5)]
+    s = Suite(check, "C13.interrupted", f"each observation (s, len, str, width, repr, hash) of {len(vals)} values aborted at each of its executed lines, "
+              "then every memoised view against a fresh, structurally equal value", bound="every abort point", exhaustive=False)
+    for v in vals:
+        runs = [(c.s, dict(c.atts)) for c in v.chunks]
+        for o in sorted(OBS):
+            def observe(f, o=o):
+                try:
+                    OBS[o](f)
+                except ValueError:
+                    pass
+            for k, d in interrupted_then(lambda: FmtStr(*[Chunk(t, dict(a)) for t, a in runs]), observe, _stale, max_k=300):
+                s.case((str(runs), o, k), sample=dict(runs=runs, observation=o, aborted_at_line_event=k) if k == 2 else None)
+                if d:
+                    s.fail("C13.interrupted_observation", dict(runs=[[t, a] for t, a in runs], observation=o, aborted_at_line_event=k),
+                           f"after {o} was aborted at its line event #{k}: {d}")
+    s.done()
+
+
 def run(check, tier, seed):
     deductive(check, tier)
     bounded(check, tier, seed)
+    interrupted(check, tier, seed)
